@@ -18,6 +18,9 @@ Step == CASE e.op = "@" -> Restart
           [] e.op = "add" -> Add(Drop(e.a, 1))
           [] e.op = "consume" -> Consume(e.a[1])
           [] e.op = "consume_at_most" -> ConsumeAtMost(e.a[1])
+          \* bigadd u n: a stateless probe on a buffer of 4 GiB + 16 octets holding u: adding n octets succeeds, exactly n are added and
+          \* copied, the free space shrinks by n (sizes beyond 2^32 are not representable in the model's state: R2)
+          [] e.op = "bigadd" -> UNCHANGED vars /\ ev' = Ev("bigadd", e.a, <<0, e.a[2], 1>>)
           [] e.op = "addhuge" -> AddHuge(e.a[1])
           [] e.op = "consumehuge" -> ConsumeHuge(e.a[1])
           [] e.op = "camhuge" -> ConsumeAtMostHuge(e.a[1])
